@@ -32,7 +32,12 @@ RULE = ('1-8 motifs of width 2-20 (dirichlet PWMs of varying sharpness, float32 
         'worker process (a dead interpreter = failing input); multi-call cases (+pre buckets): a fresh motif set is first '
         'scanned with another eps / bin_size / threshold / reverse_complement / mode / other sequences, then the checked '
         'call; n-run cases: runs of N at least as long as the motif with motif/threshold/bin combinations whose '
-        'threshold bin is exactly 0 (score 0.0 vs threshold 0.0 is decided exactly: no hit); non-trivial = a call with at least one '
+        'threshold bin is exactly 0 (score 0.0 vs threshold 0.0 is decided exactly: no hit); forms cases: MEME-file motifs, '
+        'non-contiguous / requires_grad / oddly named motif tensors, width-1 motifs, sequence tensors and numpy arrays of '
+        'dtypes float16-64, int8-64, uint8, bool, FASTA line widths 1-100000, CRLF, descriptions, unsorted names, empty '
+        'records, missing final newline, alphabet as list/str/tuple in 4 orders, int and numpy.float64 parameters, '
+        'parameters left at their defaults, thresholds 0.5/0.25/1/16, the same objects passed twice (arguments must be '
+        'unchanged); non-trivial = a call with at least one '
         'hit window and one non-hit window; buckets ending in amb1 contain a window within 1e-7 of its score '
         'threshold (membership there is excluded from the comparison inside Coq)')
 TRUSTED = ['C12: the harness recomputes log2(pwm+eps)-log2(0.25) with numpy in the dtype fimo uses and converts each '
@@ -643,6 +648,11 @@ def forms_case(rng, quick):
     c = with_seqs(rng, base_case(rng, quick), planted=rng.random() < 0.5)
     c['kind'] = 'forms'
     c['thr'] = rng.choice([c['thr'], c['thr'], 1e-1, 1e-2, 0.5, 0.25, 0.0625])
+    if c['thr'] > 0.05:
+        # a large fraction of all windows are hits: keep the case small (the in-Coq comparison is
+        # quadratic in the number of hits)
+        c['motifs'] = c['motifs'][:2]
+        c['seqs'] = [x[:40] for x in c['seqs'][:3]]
     if rng.random() < 0.25:                               # a width-1 motif among the others
         c['motifs'] = c['motifs'] + [rand_pwm(rng, 1, 0.3)]
     if rng.random() < 0.3:                                # every sequence together with its reverse complement
